@@ -409,7 +409,7 @@ def check_wellformed(w: World, prop: str, text: str, outcome: Tuple[str, Any], c
     if outcome[0] == 'raise':
         e = outcome[1]
         w.violate(f'{prop}.raises', f'dispatch raised {type(e).__name__}: {_safe_str(e)[:100]} for {text[:80]!r}',
-                  exc=type(e).__name__, **ctx)
+                  **{**ctx, 'exc': type(e).__name__})
         return None
     reply = outcome[1]
     if reply is None:
